@@ -979,9 +979,11 @@ impl Session {
             crate::verif::sched_point("wp_before_writer_lock").await;
             let mut writer = self.writer.lock().await;
             if let Err(e) = writer.write_all(&buffer).await {
+                drop(writer);
                 return Err(self.handle_io_error("write_without_padding", e).await);
             }
             if let Err(e) = writer.flush().await {
+                drop(writer);
                 return Err(self.handle_io_error("flush_without_padding", e).await);
             }
             tracing::info!(
@@ -1011,9 +1013,11 @@ impl Session {
             crate::verif::sched_point("wp_before_writer_lock").await;
             let mut writer = self.writer.lock().await;
             if let Err(e) = writer.write_all(&buffer).await {
+                drop(writer);
                 return Err(self.handle_io_error("write_no_padding_stop", e).await);
             }
             if let Err(e) = writer.flush().await {
+                drop(writer);
                 return Err(self.handle_io_error("flush_no_padding_stop", e).await);
             }
             return Ok(());
@@ -1028,9 +1032,11 @@ impl Session {
             crate::verif::sched_point("wp_before_writer_lock").await;
             let mut writer = self.writer.lock().await;
             if let Err(e) = writer.write_all(&buffer).await {
+                drop(writer);
                 return Err(self.handle_io_error("write_no_padding_sizes", e).await);
             }
             if let Err(e) = writer.flush().await {
+                drop(writer);
                 return Err(self.handle_io_error("flush_no_padding_sizes", e).await);
             }
             return Ok(());
@@ -1076,6 +1082,7 @@ impl Session {
                     );
                 }
                 if let Err(e) = writer.write_all(&buffer[..size]).await {
+                    drop(writer);
                     return Err(self.handle_io_error("write_padding_split_payload", e).await);
                 }
                 buffer = buffer.split_off(size);
@@ -1089,6 +1096,7 @@ impl Session {
                 }
 
                 if let Err(e) = writer.write_all(&buffer).await {
+                    drop(writer);
                     return Err(self.handle_io_error("write_padding_payload_frame", e).await);
                 }
                 buffer.clear();
@@ -1098,6 +1106,7 @@ impl Session {
                 put_waste_frames(&mut padding_frame, size);
 
                 if let Err(e) = writer.write_all(&padding_frame).await {
+                    drop(writer);
                     return Err(self.handle_io_error("write_padding_frame_only", e).await);
                 }
             }
@@ -1110,12 +1119,14 @@ impl Session {
                 buffer.len()
             );
             if let Err(e) = writer.write_all(&buffer).await {
+                drop(writer);
                 return Err(self.handle_io_error("write_remaining_payload", e).await);
             }
         }
 
         tracing::trace!("[Session] write_with_padding: Flushing writer");
         if let Err(e) = writer.flush().await {
+            drop(writer);
             return Err(self.handle_io_error("flush_with_padding", e).await);
         }
         tracing::debug!("[Session] write_with_padding: Successfully wrote and flushed data");
